@@ -275,7 +275,7 @@ def discriminating_path(
     # now add 'a' to the queue and begin exploring
     # adjacent nodes that are connected with bidirected edges
     path = deque([a])
-    while len(path) != 0:
+    while len(path) != 0 and not found_discriminating_path:
         this_node = path.popleft()
 
         # check distance criterion to prevent checking very long paths
